@@ -41,7 +41,7 @@ BUDGET = {"quick": (16, 40), "thorough": (16, 1200)}
 def strategy(tier, phase):
     from hypothesis import strategies as st
 
-    t = st.fixed_dictionaries({"kind": st.sampled_from([0, 0, 1, 1, 2, 3]), "size": st.sampled_from([8, 24, 100, 300, 0]), "seed": st.integers(0, 255)})
+    t = st.fixed_dictionaries({"kind": st.sampled_from([0, 0, 1, 1, 2, 3, 4]), "size": st.sampled_from([8, 24, 100, 300, 0]), "seed": st.integers(0, 255)})
     return st.fixed_dictionaries({
         "tensors": st.lists(t, min_size=1, max_size=4), "pre": st.integers(0, 3), "shard": st.sampled_from([None, None, None, 64, 200]),
         "workers": st.sampled_from([None, None, 1, 2]), "threshold": st.sampled_from([0, 0, 16]), "callback": st.booleans(),
@@ -114,6 +114,17 @@ def setup(case, wd, inj_ref):
             ext_same.append((t, data))
         elif kind == 2:
             t = ir.ExternalTensor("other.bin", offsets[i], len(data), ir.DataType.UINT8, shape=ir.Shape([len(data)]), name=f"w{i}", base_dir=wd)
+        elif kind == 4:
+            # an external tensor of ANOTHER directory whose file has the same relative location as the destination
+            # (initializers merged from two models that both call their data file the same)
+            twin_dir = os.path.join(wd, "twin")
+            tp_ = os.path.join(twin_dir, dest_rel)
+            os.makedirs(os.path.dirname(tp_), exist_ok=True)
+            with open(tp_, "ab") as f:
+                off_ = f.tell()
+                f.write(data)
+                f.write(b"\x77" * 3)
+            t = ir.ExternalTensor(dest_rel, off_, len(data), ir.DataType.UINT8, shape=ir.Shape([len(data)]), name=f"w{i}", base_dir=twin_dir)
         elif kind == 3:
             inner = ir.Tensor(arr, name=f"w{i}")
             t = ir.LazyTensor(lambda inner=inner: inner, ir.DataType.UINT8, ir.Shape([len(data)]), name=f"w{i}")
@@ -238,7 +249,7 @@ def execute(case):
         for v in info["values"]:
             t = v.const_value
             if hasattr(t, "valid") and not t.valid():
-                if not (replaced and str(t.location) == dest_rel):
+                if not (replaced and os.path.realpath(t.path) == os.path.realpath(info["dest"])):
                     fails.append(("invalidated-without-replacement", f"external tensor {t.name} ({t.location}) was invalidated but its file was not replaced"))
         if [id(v.const_value) for v in info["values"]] != ids_before:
             fails.append(("const-value-replaced/success", "model holds different tensor objects after save"))
